@@ -4,7 +4,9 @@ pin the theorem names of Props/PID.v in lib/theorems.json (the check fails if on
 import sys, os, re, json
 ROOT = os.path.dirname(os.path.dirname(os.path.abspath(__file__)))
 pid = sys.argv[1]
-files = sys.argv[2:] + ['Props/%s.v' % pid]
+args = sys.argv[2:]
+extra = [a for a in args if a.startswith('Props/')]
+files = [a for a in args if not a.startswith('Props/')] + ['Props/%s.v' % pid] + extra
 cp = os.path.join(ROOT, 'coq', '_CoqProject')
 lines = open(cp).read().splitlines()
 for f in files:
@@ -12,7 +14,12 @@ for f in files:
     if f not in lines:
         lines.append(f)
 open(cp, 'w').write('\n'.join(lines) + '\n')
-src = open(os.path.join(ROOT, 'coq', 'Props', pid + '.v')).read()
+d0 = json.load(open(os.path.join(ROOT, 'lib', 'extra_props.json'))) if os.path.exists(os.path.join(ROOT, 'lib', 'extra_props.json')) else {}
+allextra = sorted(set(d0.get(pid, []) + extra))
+if allextra:
+    d0[pid] = allextra
+    json.dump(d0, open(os.path.join(ROOT, 'lib', 'extra_props.json'), 'w'), indent=1, sort_keys=True)
+src = ''.join(open(os.path.join(ROOT, 'coq', f)).read() + '\n' for f in ['Props/%s.v' % pid] + allextra)
 # strip comments
 out, depth, i = [], 0, 0
 while i < len(src):
